@@ -157,9 +157,19 @@ def hyp_case(draw, max_len):
     return case
 
 
-def parts(tier):
+def _parts(tier):
     return [
         Part("enum-windows-steps", "enum", check=check, cases=enum_cases, exhaustive=False, shards={"quick": 16, "thorough": 16}),
         Part("hyp-complexity", "hyp", check=check, strategy=lambda t: hyp_case(60 if t == "quick" else 120),
              examples={"quick": 9600, "thorough": 64000}, shards={"quick": 16, "thorough": 16}),
     ]
+
+
+def parts(tier):
+    ps = _parts(tier)
+    from .. import fuzz
+    if tier == "thorough" and fuzz.available():
+        # the same structured cases, generated coverage-guided: libFuzzer bytes drive the Hypothesis strategy (fuzz_one_input)
+        ps.append(Part("atheris-guided", "custom", check=[p for p in ps if p.name == "hyp-complexity"][0].check, shards={"quick": 1, "thorough": 8},
+                       run=lambda ctx, t, seed, idx, n: fuzz.hyp_campaign(ctx, "c11", "hyp-complexity", seed, idx, runs=30000)))
+    return ps
